@@ -140,9 +140,10 @@ pub fn named_default_symptom(font: &BitFont, file: &[u8], back: &BitFont) -> boo
     font.name == DEFAULT_FONT_NAME && file.len() > 10 && file[10] & 2 == 0 && same_font(&BitFont::default(), back).is_ok()
 }
 
-/// the recorded findings `adf_font_height_of_slot0` / `idf_font_height_of_slot0` and nothing else: the cells are all on ONE
-/// page k != 0, slot 0 and slot k both hold a font, and exactly one of the two is 16 rows high — `Artworx::to_bytes` /
-/// `IceDraw::to_bytes` test `get_font_dimensions()` (= slot 0) but embed the font of page k
+/// the shape of the REPAIRED defects `adf_font_height_of_slot0` / `idf_font_height_of_slot0` (`fixed:` in known_findings.txt) and
+/// nothing else: the cells are all on ONE page k != 0, slot 0 and slot k both hold a font, and exactly one of the two is 16 rows
+/// high — `Artworx::to_bytes` / `IceDraw::to_bytes` used to test `get_font_dimensions()` (= slot 0) but embed the font of page k.
+/// A failure of such an input is reported under that key, i.e. as the regression of the repair that it is.
 pub fn slot0_height_symptom(fmt: &str, fonts: &[(usize, BitFont)], used: &[usize]) -> Option<String> {
     if fmt != "adf" && fmt != "idf" || used.len() != 1 || used[0] == 0 {
         return None;
